@@ -708,6 +708,64 @@ def run(ctx, ck):
     ck.rule('R-CACHE.no-inplace', 'values read from a cache are not updated in place')
     run_cache_rule(ctx, ck, only=keys)
     ck.info('memo_sites_in_far_field_closure', len(keys))
+    # a mask taken from one column of the (vertical, horizontal, total) stack is applied to the field of that column
+    ck.rule('R-SIB.polarisation-index', 'a field array masked by column k of the gain stack is the field that column was computed from')
+    ff_ = ctx.flat('mininec.Mininec.compute_far_field')
+    ffl_ = ctx.flow(ff_)
+    stacks_ = {}
+    for st_ in walk_no_nested(ff_.node):
+        if isinstance(st_, ast.Assign) and len(st_.targets) == 1 and isinstance(st_.targets[0], ast.Name):
+            v_ = st_.value
+            while isinstance(v_, ast.Attribute) and v_.attr == 'T':
+                v_ = v_.value
+            if isinstance(v_, ast.Call) and (dotted(v_.func) or '').split('.')[-1] in ('array', 'stack', 'dstack') and v_.args and \
+               isinstance(v_.args[0], (ast.List, ast.Tuple)) and len(v_.args[0].elts) == 3:
+                cols_ = []
+                for e_ in v_.args[0].elts:
+                    r_ = ffl_.roots(e_, ffl_.node_id_of(st_))
+                    cols_.append({x_[1] for x_ in r_ if x_[0] in ('local', 'name')} |
+                                 {n_.id for n_ in ast.walk(e_) if isinstance(n_, ast.Name)})
+                stacks_[st_.targets[0].id] = (st_, cols_)
+    n_pi = 0
+    if stacks_:
+        # names derived from a stack by elementwise operations (cond = t123 > ..., floor = np.logical_not(cond))
+        derived_ = {k_: k_ for k_ in stacks_}
+        for _ in range(4):
+            for st_ in walk_no_nested(ff_.node):
+                if isinstance(st_, ast.Assign) and len(st_.targets) == 1 and isinstance(st_.targets[0], ast.Name) and \
+                   st_.targets[0].id not in derived_:
+                    srcs_ = {derived_[n_.id] for n_ in ast.walk(st_.value) if isinstance(n_, ast.Name) and n_.id in derived_}
+                    if len(srcs_) == 1 and not any(isinstance(x_, ast.Subscript) and isinstance(x_.value, ast.Name) and x_.value.id in derived_
+                                                   for x_ in ast.walk(st_.value)):
+                        derived_[st_.targets[0].id] = srcs_.pop()
+        # what each column is computed from, followed back to the field arrays (t1 <- h12, t2 <- x34)
+        def field_roots(names_, depth=0):
+            out_ = set(names_)
+            for nm_ in list(names_):
+                for st_ in walk_no_nested(ff_.node):
+                    if isinstance(st_, ast.Assign) and len(st_.targets) == 1 and isinstance(st_.targets[0], ast.Name) and \
+                       st_.targets[0].id == nm_ and depth < 3:
+                        out_ |= field_roots({n_.id for n_ in ast.walk(st_.value) if isinstance(n_, ast.Name)}, depth + 1)
+            return out_
+        for st_ in walk_no_nested(ff_.node):
+            tg_ = st_.targets[0] if isinstance(st_, ast.Assign) and len(st_.targets) == 1 else (st_.target if isinstance(st_, ast.AugAssign) else None)
+            if not (isinstance(tg_, ast.Subscript) and isinstance(tg_.value, ast.Name)):
+                continue
+            for x_ in ast.walk(tg_.slice):
+                if isinstance(x_, ast.Subscript) and isinstance(x_.value, ast.Name) and x_.value.id in derived_ and \
+                   isinstance(x_.slice, ast.Tuple) and x_.slice.elts and isinstance(x_.slice.elts[-1], ast.Constant) and \
+                   x_.slice.elts[-1].value in (0, 1, 2) and not isinstance(x_.slice.elts[-1].value, bool):
+                    k_ = x_.slice.elts[-1].value
+                    cols_ = stacks_[derived_[x_.value.id]][1]
+                    fr_ = field_roots(cols_[k_])
+                    others_ = set().union(*[field_roots(c_) for i_, c_ in enumerate(cols_) if i_ != k_ and i_ != 2]) - fr_
+                    n_pi += 1
+                    bad_ = tg_.value.id in others_ and tg_.value.id not in fr_
+                    ck.ob('R-SIB.polarisation-index', '%s|%s' % (ff_.qual, norm(st_)[:50]), not bad_, ff_.loc(st_),
+                          'column %d of the stack belongs to %s' % (k_, tg_.value.id) if not bad_ else
+                          '`%s`: column %d of the gain stack is computed from %s, the array that is changed is %s (the field of the '
+                          'other polarisation)' % (norm(st_)[:50], k_, sorted(fr_ & {'h12', 'x34'} or fr_)[:3], tg_.value.id))
+    ck.info('masks_taken_from_a_column_of_the_gain_stack', n_pi)
     # the per-half weights of the far field treat both halves of a grounded pulse alike
     ck.rule('R-SYM.half-weights', 'a store into the per-half far-field weights that picks the half by a literal index is made for both halves')
     from ._sym import check_half_weight_symmetry
